@@ -20,7 +20,7 @@ Print Assumptions C05_total.
 
 (** T5.1 (dl_write_range): a call on [a ++ b] is a call on [a] followed by a call on [b]:
     same state (file, flags, cursors), byte counts add up.  Needs non-empty pieces and a
-    range index without zero-length entries (D14, see C05_streaming_refuted_zero_length). *)
+    range index without zero-length entries (see C05_streaming_refuted_zero_length). *)
 Theorem C05_streaming_dlw : forall H doff ridx,
   nz_ridx ridx ->
   forall s a b s' n, a <> [] -> b <> [] ->
@@ -127,8 +127,12 @@ Theorem C05_mismatch_zeroed : forall H doff ridx s bs s',
 Proof. exact dlw_fail_zeroed_gen. Qed.
 Print Assumptions C05_mismatch_zeroed.
 
-(** D14: with a zero-length entry in the range index the streaming law is FALSE in the
-    current code (one call drops the rest of the payload, two calls deliver it). *)
+(** Documentation of D14: with a zero-length entry in the range index the streaming law is
+    FALSE for dl_write_range (one call drops the rest of the payload, two calls deliver it),
+    which is why [nz_ridx] is a hypothesis above.  Since the fix "zck_get_missing_range
+    requests an inverted range for a zero-length chunk" the library never builds such an
+    entry (zero-length chunks are skipped), so [nz_ridx] holds for every range index obtained
+    through the public API; tools/props/c05.py checks that on every 'auto' case. *)
 Theorem C05_streaming_refuted_zero_length : ~ dlw_app_law D14.toyH 0 D14.ridx.
 Proof. exact D14.streaming_refuted_with_zero_length_entry. Qed.
 Print Assumptions C05_streaming_refuted_zero_length.
